@@ -668,6 +668,8 @@ class _ConstWrap2(ast.NodeTransformer):
 
 
 def _c(v):
+    if isinstance(v, RefInt):
+        return v
     if v < 0:
         raise Unsupported("negative constant")
     return RefInt(v, const_width(v))
